@@ -777,7 +777,8 @@ class AbstractFeatureInterval(AbstractInterval, ABC):
         self, other_qualifiers: Optional[Dict[Hashable, Set[str]]] = None
     ) -> Dict[Hashable, Set[str]]:
         """Merges this Interval's qualifiers dictionary with a new one, removing redundancy."""
-        merged = self.qualifiers.copy()
+        # copy the value sets too: a shallow copy would merge the other qualifiers into this interval's own sets
+        merged = {key: set(vals) for key, vals in self.qualifiers.items()}
         if other_qualifiers:
             for key, vals in other_qualifiers.items():
                 if key not in merged:
